@@ -39,7 +39,11 @@ func drawLoopAction(rt *rapid.T) *actionPlan {
 func drawLoopReply(rt *rapid.T) *replyPlan {
 	r := &replyPlan{}
 	r.Kind = rapid.SampledFrom([]string{"exec", "exec", "exec", "exec", "idle", "nil", "nil", "nil", "rpcerr"}).Draw(rt, "reply")
-	r.LatencyMs = rapid.SampledFrom([]int{0, 0, 0, 1, 300, 10000}).Draw(rt, "latency_ms")
+	// 90 s / 4 min: a call that hangs (scheduler or network outage) before it
+	// is answered or fails; BuildClient sets no deadline on Synchronize. With
+	// LaunchWorkerThread's back-off (< 5 s) this is what lets 0 .. several
+	// minutes pass between a failed synchronisation and the next Run.
+	r.LatencyMs = rapid.SampledFrom([]int{0, 0, 0, 0, 0, 0, 0, 0, 0, 1, 1, 1, 300, 300, 300, 10000, 10000, 10000, 90000, 240000}).Draw(rt, "latency_ms")
 	if r.Kind == "rpcerr" {
 		return r
 	}
@@ -49,6 +53,8 @@ func drawLoopReply(rt *rapid.T) *replyPlan {
 		r.TS = "valid"
 		r.OffNs = int64(rapid.SampledFrom([]time.Duration{
 			-time.Minute, -time.Second, 0, 1, 100 * time.Millisecond, time.Second, 10 * time.Second, 10 * time.Second, time.Minute, 5 * time.Minute,
+			-time.Minute, -time.Second, 0, 1, 100 * time.Millisecond, time.Second, 10 * time.Second, 10 * time.Second, time.Minute, 5 * time.Minute,
+			-5 * time.Minute, -61 * time.Second,
 		}).Draw(rt, "next_sync"))
 	}
 	if r.Kind == "exec" {
@@ -62,7 +68,7 @@ func drawLoopReply(rt *rapid.T) *replyPlan {
 
 func TestC08WorkerThreadLoop(t *testing.T) {
 	rec := simkit.NewRecorder(t, "C08", "worker_thread_loop",
-		"the real builder.LaunchWorkerThread loop on synctest bubble time (clock.SystemClock) against the scripted scheduler (a pre-drawn list of replies with latencies: execute/execute request that fails the worker's validation/idle/no desired state/RPC error/invalid timestamp, then a scheduler without work) and an autonomous instrumented executor (drawn run time, progress updates incl. > 10, delay after cancellation); the outer context is cancelled a drawn delay after the n-th Synchronize arrived. Oracle: the request and executor oracles of run_model, plus: the routine returns only after shutdown, eventually, and at that instant the scheduler believes the worker idle (last delivered reply left it idle) or the last provided next-sync time was missed by > 1 min; no request received after the cancellation has prefer_being_idle=false; freshness/completion: after a valid no-desired-state reply with next-sync in the future to an Executing report, the request that follows at the same bubble instant must report at least what sat in the update channel when the reply was handed out (Completed only if bubble time has advanced since Execute returned); livelock backstop: 3000 Synchronize calls at one bubble instant. NON-TRIVIAL: the context was cancelled while an Execute was running, or a pre-emption happened; distinct by plan hash")
+		"the real builder.LaunchWorkerThread loop on synctest bubble time (clock.SystemClock) against the scripted scheduler (a pre-drawn list of replies with latencies 0 .. 4 min - a hanging call is how minutes pass between a failed synchronisation and the next Run, LaunchWorkerThread's back-off being < 5 s - : execute/execute request that fails the worker's validation/idle/no desired state/RPC error/invalid timestamp, then a scheduler without work) and an autonomous instrumented executor (drawn run time, progress updates incl. > 10, delay after cancellation); the outer context is cancelled a drawn delay after the n-th Synchronize arrived. Oracle: the request and executor oracles of run_model (incl. stay idle after a failed Synchronize outcome until a CheckReadiness call counted by the fake executor has succeeded, label idle_request_after_failure_and_expired_bound), plus: the routine returns only after shutdown, eventually, and at that instant the scheduler believes the worker idle (last delivered reply left it idle) or the last provided next-sync time was missed by > 1 min; no request received after the cancellation has prefer_being_idle=false; freshness/completion: after a valid no-desired-state reply with next-sync in the future to an Executing report, the request that follows at the same bubble instant must report at least what sat in the update channel when the reply was handed out (Completed only if bubble time has advanced since Execute returned); livelock backstop: 3000 Synchronize calls at one bubble instant. NON-TRIVIAL: the context was cancelled while an Execute was running, or a pre-emption happened; distinct by plan hash")
 	rapid.Check(t, func(rt *rapid.T) {
 		plan := &loopPlan{}
 		plan.Replies = rapid.SliceOfN(rapid.Custom(drawLoopReply), 0, 12).Draw(rt, "replies")
